@@ -1,5 +1,5 @@
 """Module-level (hence picklable) user node classes for C19.  Import only after anytree is importable."""
-from anytree import LightNodeMixin, NodeMixin
+from anytree import LightNodeMixin, NodeMixin, SymlinkNodeMixin
 
 
 class PUser(NodeMixin):
@@ -45,6 +45,13 @@ class PDictNode(NodeMixin, dict):
 
     def __ne__(self, other):
         return self is not other
+
+
+class PLink(SymlinkNodeMixin):
+    """The documented minimal way to build a link class: derive from SymlinkNodeMixin and set target."""
+
+    def __init__(self, target):
+        self.target = target
 
 
 class PLight(LightNodeMixin):
